@@ -324,20 +324,27 @@ structure DeserRows where
   rawRows : Bytes
   deriving Repr
 
-/-- The metadata a Rows result is given: cached, mock-empty, or parsed from the frame (`metadata_deserializer`). -/
+/-- `metadata_deserializer`: [new metadata id] [global table spec] column specs. -/
+def parsedMeta (r : RawRows) (p : MetaPresence) : M (MetaSource × ResultMeta) :=
+  tag "meta" (do
+    let newId ← optRead (p = .withNewId) (tag "newid" readShortBytes)
+    let gts ← optRead r.globalSpec (tag "gts" deserTableSpec)
+    let cols ← deserColSpecs gts r.colCount
+    pure (MetaSource.parsed, (⟨newId, r.colCount, cols⟩ : ResultMeta)))
+
+/-- `make_deserialized_metadata`: the deserializer runs on the frame, then `cart.slice_ref(raw_rows)`
+(result.rs:353) re-slices the frame at what the deserializer left. -/
+def parsedMetaSliced (r : RawRows) (p : MetaPresence) : M (MetaSource × ResultMeta) := do
+  let sm ← tracked (parsedMeta r p)
+  sliceRef sm.2
+  pure sm.1
+
+/-- The metadata a Rows result is given: cached, mock-empty, or parsed from the frame. -/
 def metaFor (r : RawRows) (cached : Option ResultMeta) : M (MetaSource × ResultMeta) :=
   match r.presence, cached with
   | .noMetadata, some c => pure (MetaSource.cached, c)
   | .noMetadata, none => pure (MetaSource.mockEmpty, (⟨none, 0, []⟩ : ResultMeta))
-  | p, _ => do
-    -- `make_deserialized_metadata`: the deserializer runs on the frame, then `cart.slice_ref(raw_rows)` (result.rs:353)
-    let sm ← tracked (tag "meta" (do
-      let newId ← optRead (p = .withNewId) (tag "newid" readShortBytes)
-      let gts ← optRead r.globalSpec (tag "gts" deserTableSpec)
-      let cols ← deserColSpecs gts r.colCount
-      pure (MetaSource.parsed, (⟨newId, r.colCount, cols⟩ : ResultMeta))))
-    sliceRef sm.2
-    pure sm.1
+  | p, _ => parsedMetaSliced r p
 
 /-- `RawMetadataAndRawRows::deserialize_metadata` (`cached` = the metadata the caller passed, if any). -/
 def deserMetadata (r : RawRows) (cached : Option ResultMeta) : M DeserRows := do
